@@ -163,6 +163,7 @@ class Client:
         else:
             self._build_hand()
         self.actions = list(self.mspec['actions'])
+        self.env.set_seed(spec.get('env_seed', 0))
         for w in spec.get('pool_worlds', []):
             self.pool.append(mk_state(w))
             self.valid.append(False)
